@@ -75,11 +75,15 @@ class Ctx:
         self.nontrivial = False
         self.ratios = {}
         self.notes = {}
+        self.counts = {}
 
     def flag(self, *names):
         for n in names:
             if n:
                 self.flags.add(str(n))
+
+    def count(self, name, n=1):
+        self.counts[name] = self.counts.get(name, 0) + int(n)
 
     def ratio(self, name, value):
         try:
@@ -303,6 +307,8 @@ def worker_main(pid, subname, shard, tier, seed, outpath):
             res["evaluations"] += 1
         for fl in ctx.flags:
             res["flags"][fl] = res["flags"].get(fl, 0) + 1
+        for k, v in ctx.counts.items():
+            res["flags"]["#" + k] = res["flags"].get("#" + k, 0) + v
         for k, v in ctx.ratios.items():
             if v > res["ratios"].get(k, -1):
                 res["ratios"][k] = v
